@@ -165,7 +165,7 @@ def apply(c):
     # ---- parse
     # R6: Option::map with a closure capturing &mut, inlined
     s = c.rd(rel)
-    m = re.search(r"additional_records\s*\.iter\(\)\s*\.position\(\|rr\| rr\.rdata\.type_code\(\) == crate::TYPE::OPT\)\s*\.map\(\|i\| additional_records\.remove\(i\)\),?", s)
+    m = re.search(r"additional_records\s*\.iter\(\)\s*\.position\(\|rr\| (rr\.rdata\.type_code\(\) == [\w:]+)\)\s*\.map\(\|i\| (additional_records\.\w+\(i\))\),?", s)
     if not m:
         raise AnchorLost('%s: OPT lifting expression lost' % rel)
     c.wr(rel, s[:m.start()] + """{
@@ -173,7 +173,7 @@ def apply(c):
                 let ghost vx_it0 = vx_iter;
                 let vx_pred = |rr: &ResourceRecord<'a>| -> (b: bool)
                     ensures b == (rdata_type(&rr.rdata) == crate::TYPE::OPT)
-                    { rr.rdata.type_code() == crate::TYPE::OPT };
+                    { %s };
                 let ghost vx_p = vx_pred;
                 proof {
                     assert(vx_it0.remaining().len() == vx_add.len());
@@ -190,7 +190,7 @@ def apply(c):
                                 assert(call_ensures(vx_p, (vx_it0.remaining()[j],), false));
                             }
                         }
-                        Some(additional_records.remove(i))
+                        Some(%s)
                     }
                     None => {
                         proof {
@@ -201,7 +201,7 @@ def apply(c):
                         None
                     }
                 }
-            },""" + s[m.end():])
+            },""" % (m.group(1), m.group(2)) + s[m.end():])
     c.log.append(('rewrite', rel, 'R6 x1 (Option::map over a closure capturing &mut inlined as match; iterator and predicate temporaries named)'))
     c.log.append(('closure-contract', rel, 'Packet::parse: position predicate gets `ensures b == (rdata_type(&rr.rdata) == TYPE::OPT)`'))
     c.contract(rel, P_IMPL, 'parse', """
@@ -216,8 +216,8 @@ def apply(c):
     c.ghost(rel, P_IMPL, 'parse', "header.extract_info_from_opt_rr(", "        let ghost vx_p4 = offset as int;\n        let ghost vx_add = additional_records@;", where='before')
     c.ghost(rel, P_IMPL, 'parse', "Ok(Self {", """
         proof {
-            assert(opt_lifted(vx_add, additional_records@, header.opt));
-            assert(pkt_dec_w(data@, questions@, answers@, name_servers@, additional_records@, &header, vx_p1, vx_p2, vx_p3, vx_p4, vx_add));
+            assert(opt_lifted(vx_add, additional_records@, header.opt)); // @C09:opt-lifted,C05:additional-section-as-parsed,C11:opt-lifted
+            assert(pkt_dec_w(data@, questions@, answers@, name_servers@, additional_records@, &header, vx_p1, vx_p2, vx_p3, vx_p4, vx_add)); // @C05:sections-follow-counts-and-rdlength,C09:opt-lifted
         }
 """, where='before')
     # ---- write_header / write_to
